@@ -26,6 +26,7 @@ import (
 	"path/filepath"
 	"reflect"
 	"runtime"
+	"sort"
 	"strconv"
 	"strings"
 	"sync"
@@ -1724,7 +1725,14 @@ func (t *Transaction) AssertedDatasets() []string {
 func (s *Store) ExecuteTransaction(transaction *Transaction) error {
 	datasets := make(map[string]*Dataset)
 
+	// lock the datasets in a fixed order. with map iteration order, two transactions over
+	// the same datasets can take the write locks in opposite orders and deadlock
+	datasetNames := make([]string, 0, len(transaction.DatasetEntities))
 	for k := range transaction.DatasetEntities {
+		datasetNames = append(datasetNames, k)
+	}
+	sort.Strings(datasetNames)
+	for _, k := range datasetNames {
 		dataset, ok := s.datasets.Load(k)
 		if !ok {
 			return errors.New("no dataset " + k)
